@@ -24,12 +24,12 @@ def run(cmd, **kw):
 try:
     shutil.copytree("/repo", scratch, ignore=shutil.ignore_patterns(".git", "__pycache__", "*.pyc"))
     env = dict(os.environ, PYTHONPATH=scratch, PYTHONDONTWRITEBYTECODE="1")
-    r0 = run([PY, demo], env=env, cwd="/tmp")
+    r0 = run([PY, demo], env=env, cwd=scratch)
     a = run(["patch", "-p1", "-i", diff], cwd=scratch)
     if a.returncode != 0:
         print("PATCH FAILED", a.stdout[-500:], a.stderr[-300:])
         sys.exit(2)
-    r1 = run([PY, demo], env=env, cwd="/tmp")
+    r1 = run([PY, demo], env=env, cwd=scratch)
     t = run(f"cd {scratch} && PYTHONPATH={scratch} {PY} -m pytest -q -p no:cacheprovider -x -q 2>&1 | tail -1", shell=True)
     print(f"demo clean: exit {r0.returncode}; demo with change: exit {r1.returncode}; suite: {t.stdout.strip()[-60:]}")
     for c in checks:
